@@ -118,6 +118,7 @@ let run line =
               | _ -> failwith "D op")
            | 'R' -> t := tok_reset !t; dead := false; out := "reset" :: !out
            | 'N' -> t := t0; dead := false; out := "new" :: !out
+           | 'L' -> out := "locale" :: !out   (* the caller's locale: not an input of the model (locale independence is C14) *)
            | 'F' -> let (s, a, v) = flags_of (int_of_string body) in t := set_flags !t s a v; out := "flags" :: !out
            | _ -> failwith "tok op") (split_on ';' ops)
        with Exit -> ());
